@@ -95,7 +95,16 @@ def check_doc(doc, seeds=(1, 2)):
     pyrandom.seed(seeds[0])
     mr, events = gen_md.observe(text)
     if isinstance(mr, Exception):
-        # recipe errors are C07/C19's business; anything else is reported there too
+        # a document all of whose recipe blocks are valid descriptions must compile: nothing else may be read as a recipe
+        from .. import gen_desc
+        descs = getattr(doc, "descs", None)
+        if descs is not None:
+            try:
+                for d in descs:
+                    gen_desc.meaning(d)
+            except gen_desc.Rejected:
+                return out      # an error in a recipe block: C07/C19's business
+            out.append(("C13:valid-document-rejected", "%s: %s" % (type(mr).__name__, str(mr).replace("\n", " | ")[:200])))
         return out
     # 1. exactly the recipe blocks are compiled, in order, grouped at new-recipe; equals compiling the block texts directly
     blocks = [e for e in events if e[0] == "recipe-block"]
@@ -112,6 +121,12 @@ def check_doc(doc, seeds=(1, 2)):
     if direct is not None:
         if [rsexp.c_blocks(g) for g in mr.recipes] != [rsexp.c_blocks(g) for g in direct]:
             out.append(("C13:recipes-differ-from-direct-compilation", "groups %r" % ([len(g) for g in mr.recipes],)))
+    # 1b. a plain top-level first heading gets the title header (and only then)
+    t = getattr(doc, "title", None)
+    if t is not None and t.get("plain") and t["level"] == 1 and t.get("first") and t["text"].strip():
+        page = mr.render(1)
+        if mr.title is None or "<header>" not in page or not re.search(r'<h1 class="rg-title-(?:un)?scalable">', page):
+            out.append(("C13:plain-first-heading-without-title-header", "heading %r: title %r" % (t["text"], mr.title)))
     # 2. no placeholder residue, independent of the RNG, at several scales
     for k in (1, 2, Fraction(3, 2)):
         try:
@@ -187,7 +202,8 @@ def oracle(run):
     for doc in gen_cases(run, run.budget(150, 4000)):
         run.case(("oracle", doc.text()), bool(doc.blocks))
         for sig, detail in check_doc(doc):
-            run.violate(sig, detail, {"document": doc.text(), "blocks": doc.blocks, "lines": doc.lines})
+            run.violate(sig, detail, {"document": doc.text(), "blocks": doc.blocks, "lines": doc.lines, "title": getattr(doc, "title", None),
+                                       "descs": repr(getattr(doc, "descs", None))})
 
 
 def replay(run, obj):
@@ -195,6 +211,9 @@ def replay(run, obj):
     doc = gen_md.Doc()
     doc.lines = r["lines"]
     doc.blocks = r["blocks"]
+    doc.title = r.get("title")
+    if r.get("descs"):
+        doc.descs = eval(r["descs"], {"Fraction": Fraction})
     res = check_doc(doc)
     for x in res:
         print(*x)
